@@ -111,8 +111,11 @@ def gen_cloud(rng, n, dim, kind):
 KINDS = ["plane-axis", "plane-exact", "plane-noisy", "piecewise", "sphere", "cylinder", "noisy"]
 
 
-def make_case(rng, n, k, dim, ty, hom, kind, ov, init, rotate):
-    P, meta = gen_cloud(rng, n, dim, kind)
+WITNESS = [[1.0, 0.0, -0.5], [-1.0, 0.0, -0.5], [0.0, 1.0, -0.5], [0.0, -1.0, -0.5], [0.0, 0.0, -0.5], [5.0, 5.0, -0.5]]
+
+
+def make_case(rng, n, k, dim, ty, hom, kind, ov, init, rotate, cloud=None):
+    P, meta = cloud if cloud is not None else gen_cloud(rng, n, dim, kind)
     P = [[rnd(x, ty) for x in p] for p in P]
     _counter[0] += 1
     side = os.path.join(SIDEDIR, "s%d.nb" % _counter[0])
@@ -138,15 +141,22 @@ def gen(rng, tier):
                 for init in ("d", "z"):
                     n = rng.randint(30, 80)
                     cases.append(make_case(rng, n, rng.randint(5, 12), dim, ty, hom, "plane-axis", rng.randint(0, 5), init, False))
+    # the witness of theorem C09_normal_flip_homog_refuted (plus one far point so that k < n), and its mirror image
+    for ty in ("f64", "f32"):
+        for init in ("d", "z"):
+            for sgn in (1.0, -1.0):
+                W = [[x, y, sgn * z] for x, y, z in WITNESS]
+                cases.append(make_case(rng, 6, 5, 3, ty, True, "plane-axis", 5, init, False,
+                                       cloud=(W, "0.0,0.0,1.0,%r" % (sgn * -0.5))))
     groups.append(("axis-planes-both-sides", cases))
     cases = []
     for ty in ("f64", "f32"):
         for dim in (2, 3):
             for hom in (False, True):
                 for kind in KINDS:
-                    for rep in range(3 if big else 1):
+                    for rep in range(8 if big else 1):
                         k = rng.randint(3, 30)
-                        n = rng.randint(k + 1, 2000 if (big and rep == 0) else 300)
+                        n = rng.randint(k + 1, 2000 if (big and rep < 2) else 300)
                         cases.append(make_case(rng, n, k, dim, ty, hom, kind, rng.randint(0, 5), rng.choice("dz"),
                                                rng.random() < 0.5))
     groups.append(("all-types-all-surfaces", cases))
